@@ -9,26 +9,6 @@ import (
 	"strings"
 )
 
-type VsRecMem struct{ G *VGhost }
-
-func (m *VsRecMem) Get(a uint16) uint8 { m.G.Rd[a]++; return m.G.Mem[a] }
-func (m *VsRecMem) Set(a uint16, v uint8) {
-	m.G.Wr[uint32(a)<<8|uint32(v)]++
-	m.G.Mem[a] = v
-}
-
-type VsRecIO struct{ G *VGhost }
-
-func (io *VsRecIO) In(p uint8) uint8 { io.G.PIn[p]++; return io.G.InVal[p] }
-func (io *VsRecIO) Out(p uint8, v uint8) {
-	io.G.POut[uint16(p)<<8|uint16(v)]++
-}
-
-type VsRecHandler struct{ G *VGhost }
-
-func (h *VsRecHandler) RETNHandle() { h.G.Retn++ }
-func (h *VsRecHandler) RETIHandle() { h.G.Reti++ }
-
 var vsCompNameList = []string{"A", "F", "B", "C", "D", "E", "H", "L", "A2", "F2", "B2", "C2", "D2", "E2", "H2", "L2",
 	"IX", "IY", "SP", "PC", "I", "R", "IFF1", "IFF2", "IM", "HALT", "Mem", "Rd", "Wr", "PIn", "POut", "Retn", "Reti", "Intr", "Ret"}
 
@@ -58,6 +38,10 @@ func vsDescribeState(s *VState) string {
 func vsDescribeSpec(old *CPU, oldG *VGhost) string {
 	s := new(VState)
 	vsLoad(s, old, oldG)
+	if old.Interrupt != nil {
+		acc := s.stepInt(int(old.Interrupt.Type), old.Interrupt.Data, true)
+		return fmt.Sprintf("accepted=%v open=%v ", acc, s.Open) + vsDescribeState(s) + " | accesses: " + vsDescribeBus(&s.G, oldG)
+	}
 	s.Step()
 	return vsDescribeState(s) + " | accesses: " + vsDescribeBus(&s.G, oldG)
 }
